@@ -198,6 +198,16 @@ impl Metainfo {
             return Err(Error::MetaInvalidU64("piece length"));
         }
 
+        // Total length must be representable
+        if metainfo
+            .files
+            .iter()
+            .try_fold(0u64, |sum, file| sum.checked_add(file.length))
+            .is_none()
+        {
+            return Err(Error::MetaInvalidU64("length"));
+        }
+
         Ok(metainfo)
     }
 
